@@ -14,7 +14,9 @@ import (
 func specLocal(u *udpDriver) netip.AddrPort  { return u.getLocalAddrPort() }
 func specTarget(u *udpDriver) netip.AddrPort { return u.getTargetAddrPort() }
 
-// specIsErr: the packet is one of the ICMP errors a UDP probe can elicit (time exceeded in transit, or destination unreachable).
+// specIsErr: the packet is one of the ICMP errors a UDP probe can elicit (time exceeded in transit, or destination
+// unreachable with any code). The two parser predicates are themselves verified against the type/code word in
+// packets (clauses C01+C02.ttlx / C01+C02.unreach), so a change to them is caught there.
 func specIsErr(p *packets.FrameParser) bool { return p.IsTTLExceeded() || p.IsDestinationUnreachable() }
 func specIs4(p *packets.FrameParser) bool   { return len(p.Layers) >= 2 && int(p.Layers[1]) == 19 }
 func specIs6(p *packets.FrameParser) bool   { return len(p.Layers) >= 2 && int(p.Layers[1]) == 57 }
